@@ -600,6 +600,14 @@ func (w *c09World) jsonDocs(c *kernel.RunCtx, txs []*models.RTx, stream []byte, 
 		if c.Failed() {
 			return
 		}
+		// the whole document replaced by a scalar / empty container ("the stored value was overwritten")
+		roots := []string{"null", " null\n", "[]", "{}", "\"\"", "\"00\"", "0", "true", "[null]", "[{}]", "[[]]", "{\"\":null}"}
+		c.Enumerate(fmt.Sprintf("json%d-root", ti), len(roots), func(k int) {
+			w.runJSON(c, tg, []byte(roots[k]), "document replaced by "+roots[k], "root:"+strings.TrimSpace(roots[k]))
+		})
+		if c.Failed() {
+			return
+		}
 		// torn document at every offset (strided for long documents)
 		full, _ := json.Marshal(tg.doc)
 		stride := len(full)/200 + 1
